@@ -271,6 +271,8 @@ def c12_units(tier):
     us = [
         Unit("located-parse-errors", HS12, "zzC12_ParseErrors", f, bounds="ANY log of <=3 lines: each blank / unparsable / an event, present or not, last one complete or not; real readEvents"),
         Unit("total-replay-and-readers", HS12, "zzC12_Total", dict(f, nopanics_off=""), bounds="ANY 2 events (any type string, ids, malformed payloads, unparsable timestamps) through replayEvents, listTasks, readyTasks, isBlocked, buildTaskListItems, selectPruneTargets, compactEvents: every nil dereference, index, nil-map write and loop bound is an obligation"),
+        Unit("total-tree-line", HSCMD + ["c19.go"], "zzC19_TreeLine", dict(WIDTHFLAGS, only="C12/"), note="display-width abstraction (see C19 tree-line-layout); only the panic obligations count here",
+             bounds="formatTreeLine (the row renderer of the human list) for ANY text widths and terminal width 0..400: strings.Repeat with a negative count, index and nil obligations"),
         Unit("epics-order-deterministic", HS12, "zzC12_EpicOrder", f, bounds="two epics with arbitrary creation times given to sortByCreatedAt in both orders"),
         Unit("pure-list", HS12, "zzC12_PureList", f, bounds="list --json with every flag combination on the file model"),
         Unit("pure-show", HS12, "zzC12_PureShow", fshow, note="CUT: collectEpicChildren (display) summarised", bounds="show --json <any id>"),
@@ -340,6 +342,9 @@ reg("C18", c18_units,
 
 
 # ---------------------------------------------------------------- C19
+WIDTHFLAGS = {"loop": 24, "rec": 4, "stubs": "visibleLen=zzVisLenCut,stripANSICodes=zzStripCut,truncateToWidth=zzTruncCut"}
+
+
 def c19_units(tier):
     hs = HSCMD + ["c19.go"]
     f = {"loop": 24, "rec": 4, "only": "C19/", "stubs": "hasCycle=zzHasCycleSpec,topoSortTasks=zzTopoIdentityCut"}
@@ -349,6 +354,8 @@ def c19_units(tier):
         Unit("rows-default", hs, "zzC19_RowsDefault_N3", f, note="CUT: topoSortTasks summarised", bounds=b + "; list (default view)"),
         Unit("rows-ready", hs, "zzC19_RowsReady_N3", f, note="CUT: topoSortTasks summarised", bounds=b + "; list --ready"),
         Unit("summary", hs, "zzC19_Summary_N3", f, bounds=b + "; the three scopes the summary line is computed over"),
+        Unit("tree-line-layout", hs, "zzC19_TreeLine", WIDTHFLAGS, note="strings abstracted to display widths; CUT: truncateToWidth replaced by its contract (result at most w columns, empty for w<=0); visibleLen/stripANSICodes summarised",
+             bounds="formatTreeLine for ANY widths of prefix, connector, icon, id, title, blocker text (0..2^20 columns each), task or epic, colour on/off, terminal width 0..400, no extra annotations"),
     ]
 
 
